@@ -15,7 +15,8 @@
      B <limit> <json> <doclen> <totlen>   limitReader + decoder
      Z <limit> <size>          limitSize
      O <entries> <last>        content/oci listTags
-     X <limit> <found> <size> <items> <at> <cbfail>   referrers tag schema *)
+     X <limit> <found> <size> <items> <at> <cbfail>   referrers tag schema
+     P <U|S|N> <status> <nameunknown> <ctype>   pingReferrers: answer (1|0|E), state, requests *)
 let z_of_int (i : int) : z =
   if i = 0 then Z0 else if i > 0 then Zpos (pos_of_int i) else Zneg (pos_of_int (- i))
 
@@ -156,5 +157,13 @@ let () =
           (items_of_tok its) (str_of_hex at) (fun k -> int_of_nat k = cbfail) in
       Printf.printf "%s P %d %s O %s\n" id (List.length pages)
         (match pages with [] -> "_" | ps -> String.concat ";" (List.map tok_of_items ps)) (out_name out)
+    | [id; "P"; st; status; nu; ct] ->
+      let state = (match st with "U" -> RUnknown | "S" -> RSupported | _ -> RUnsupported) in
+      let rs = { rs_status = n_of_int (int_of_string status); rs_name_unknown = bool_tok nu; rs_ctype = str_of_hex ct;
+                 rs_json_ok = true; rs_doc_len = N0; rs_total_len = N0; rs_items = []; rs_links = []; rs_fhdr = []; rs_fann = [] } in
+      let (st', r) = ping state rs in
+      Printf.printf "%s %s %s %d\n" id (match r with Some true -> "1" | Some false -> "0" | None -> "E")
+        (match st' with RUnknown -> "U" | RSupported -> "S" | RUnsupported -> "N")
+        (match state with RUnknown -> 1 | _ -> 0)
     | [] -> ()
     | _ -> Printf.printf "BADLINE %s\n" l)
